@@ -200,6 +200,10 @@ def writeBody (cfg : Cfg) (r : Reader) (avails : List Nat) : List Sent × Outcom
 
 def frames (s : List Sent) : List Frame := s.map (·.frame)
 
+/-- the windows under which the flow-controlled frames (those with a payload) were cut, in order -/
+def dataAvails (s : List Sent) : List Nat :=
+  (s.filter fun x => !x.frame.payload.isEmpty).map (·.avail)
+
 /-- the body bytes carried by a frame sequence -/
 def payloads (fs : List Frame) : Bytes := (fs.map Frame.payload).flatten
 
